@@ -57,16 +57,18 @@ def serve(app, global_conf, **local_conf):
             if has_logging_config(config_file):
                 self.cfg.set("logconfig", config_file)
 
+            # framework settings first: anything specified in the gunicorn
+            # configuration file overrides them
+            for k, v in local_conf.items():
+                if v is not None:
+                    self.cfg.set(k.lower(), v)
+
             if gunicorn_config_file:
                 self.load_config_from_file(gunicorn_config_file)
             else:
                 default_gunicorn_config_file = get_default_config_file()
                 if default_gunicorn_config_file is not None:
                     self.load_config_from_file(default_gunicorn_config_file)
-
-            for k, v in local_conf.items():
-                if v is not None:
-                    self.cfg.set(k.lower(), v)
 
         def load(self):
             return app
